@@ -1,7 +1,133 @@
 import PromModel.Promql.Selectors
+import PromModel.Suites.SelSuite
+import PromProofs.SelectorsMemo
+import PromProofs.SelectorsSub
+/-
+  C28 — Selectors implement lookback, staleness and range windows.
+
+  The model (PromModel/Promql/Selectors.lean) transcribes the engine's *strategy*: the forward-only
+  MemoizedSeriesIterator under vectorSelectorSingle, the BufferedSeriesIterator / sampleRing and the window reuse
+  of matrixIterSlice, subqueryTimeRange, setOffsetForAtModifier and getTimeRangesForSelector.  The theorems say
+  that this strategy computes the documented windows, for every series with strictly increasing timestamps.
+-/
 namespace Prom.C28
 open Prom.Selectors
 
-theorem refTime_no_at (ts off : Int) : refTime ts off none = ts - off := rfl
+/-! ### instant selectors -/
+
+/-- An instant selector evaluated at `t` (shifted by `offset`, fixed by `@`) yields exactly the documented
+    sample: `instantSpec` = the latest sample at or before `t'`, if it lies in `(t' - lookback, t']` and is
+    not a staleness marker (see `instant_spec_iff` for the statement without auxiliary definitions). -/
+theorem instant_spec (series : Series) (t lb off : Int) (atT : Option Int)
+    (hs : Sorted series) (hlb : 0 < lb) :
+    instantSel series t lb off atT = instantSpec series (refTime t off atT) lb := by
+  unfold instantSel
+  exact (vsSingle_spec (r := refTime t off atT) hs hlb (by simp [Memo.init]; omega)
+    (MInv_init series lb _) (Int.le_refl _)).1
+
+/-- The documented statement itself: `instantSel` returns `s` iff `s` is a sample of the series in
+    `(t' - lookback, t']`, no sample of the series lies in `(s.t, t']`, and `s` is not a staleness marker. -/
+theorem instant_spec_iff (series : Series) (t lb off : Int) (atT : Option Int) (s : Sample)
+    (hs : Sorted series) (hlb : 0 < lb) :
+    instantSel series t lb off atT = some s ↔
+      s ∈ series ∧ refTime t off atT - lb < s.t ∧ s.t ≤ refTime t off atT ∧ s.stale = false ∧
+        ∀ x ∈ series, x.t ≤ refTime t off atT → x.t ≤ s.t := by
+  rw [instant_spec series t lb off atT hs hlb]
+  exact instantSpec_iff hs _ _ _
+
+example : instantSel [⟨10, false, false, 1⟩, ⟨20, false, true, 2⟩, ⟨30, true, false, 3⟩] 25 15 0 none = none := by decide
+example : instantSel [⟨10, false, false, 1⟩, ⟨20, false, true, 2⟩, ⟨30, true, false, 3⟩] 25 15 6 none
+    = some ⟨10, false, false, 1⟩ := by decide
+example : Sorted [⟨10, false, false, 1⟩, ⟨20, false, true, 2⟩, ⟨30, true, false, 3⟩] := by decide
+
+/-- The memoized iterator is only ever sought forward; stepping it through any nondecreasing sequence of
+    reference times (the range-query strategy of `evalSeries`, `delta = lookback`, and of
+    `timestamp()`, `delta = lookback - 1`) yields at every step what a fresh evaluation yields. -/
+theorem memoized_seek_mono (series : Series) (lb delta : Int) (refs : List Int)
+    (hs : Sorted series) (hlb : 0 < lb) (hd : lb - 1 ≤ delta) (hmono : refs.Pairwise (· ≤ ·)) :
+    evalSteps lb (Memo.init series delta) refs = refs.map (fun r => instantSpec series r lb) := by
+  cases refs with
+  | nil => rfl
+  | cons a rest =>
+    have hpw := List.pairwise_cons.mp hmono
+    refine evalSteps_spec hs hlb (a :: rest) (Memo.init series delta) a (by simpa [Memo.init] using hd)
+      (MInv_init series delta a) ?_ hmono
+    intro x hx
+    rcases List.mem_cons.mp hx with rfl | hx
+    · exact Int.le_refl _
+    · exact hpw.1 x hx
+
+/-- ... in particular step by step equal to independent instant evaluations. -/
+theorem memoized_steps_eq_instant (series : Series) (lb : Int) (refs : List Int)
+    (hs : Sorted series) (hlb : 0 < lb) (hmono : refs.Pairwise (· ≤ ·)) :
+    evalSteps lb (Memo.init series lb) refs = refs.map (fun r => instantSel series r lb 0 none) := by
+  rw [memoized_seek_mono series lb lb refs hs hlb (by omega) hmono]
+  apply List.map_congr_left
+  intro r _
+  rw [instant_spec series r lb 0 none hs hlb]
+  simp [refTime]
+
+/-- A memoization window shorter than `lookback - 1` is *not* enough (the hypothesis of `memoized_seek_mono`
+    is sharp): the sample 3 ms back is inside a 5 ms lookback but a `delta = 1` iterator has forgotten it. -/
+theorem memoized_small_delta_witness :
+    evalSteps 5 (Memo.init [⟨10, false, false, 1⟩, ⟨20, false, false, 2⟩] 1) [13]
+      ≠ [instantSpec [⟨10, false, false, 1⟩, ⟨20, false, false, 2⟩] 13 5] := by decide
+
+/-! ### subquery steps -/
+
+/-- The child evaluator of a subquery evaluates exactly the multiples of the subquery step inside
+    `(parentStart - offset - range, alignedParentEnd - offset]`, for all integers including negative times. -/
+theorem subquery_steps_spec (pStart pEnd pInterval off range interval : Int) (hi : 0 < interval) (t : Int) :
+    t ∈ subquerySteps pStart pEnd pInterval off range interval ↔
+      (∃ k, t = interval * k) ∧ pStart - off - range < t ∧
+        t ≤ (subqueryTimeRange pStart pEnd pInterval off range interval).2 := by
+  unfold subquerySteps
+  simp only
+  rw [mem_steps hi]
+  have hspec := subquery_start_spec (pStart - off - range) interval hi
+  simp only at hspec
+  obtain ⟨⟨k0, hk0⟩, hlo, hhi⟩ := hspec
+  have hstart : (subqueryTimeRange pStart pEnd pInterval off range interval).1 = interval * k0 := by
+    rw [← hk0]; rfl
+  rw [hstart]
+  rw [hk0] at hlo hhi
+  constructor
+  · rintro ⟨j, rfl, hle⟩
+    refine ⟨⟨k0 + j, ?_⟩, ?_, hle⟩
+    · rw [Int.mul_add, Int.mul_comm interval (j : Int)]
+    · have : 0 ≤ (j : Int) * interval := Int.mul_nonneg (by omega) (by omega)
+      omega
+  · rintro ⟨⟨k, rfl⟩, hgt, hle⟩
+    have hk : k0 ≤ k := by
+      by_cases h : k0 ≤ k
+      · exact h
+      · exfalso
+        have h1 : k + 1 ≤ k0 := by omega
+        have h2 : interval * (k + 1) ≤ interval * k0 := Int.mul_le_mul_of_nonneg_left h1 (by omega)
+        rw [Int.mul_add, Int.mul_one] at h2
+        omega
+    refine ⟨(k - k0).toNat, ?_, hle⟩
+    have : ((k - k0).toNat : Int) = k - k0 := Int.toNat_of_nonneg (by omega)
+    rw [this, Int.sub_mul, Int.mul_comm k interval, Int.mul_comm k0 interval]
+    omega
+
+/-- the aligned end: the last parent step, shifted by the subquery offset -/
+theorem subquery_end_spec (pStart pEnd pInterval off range interval : Int) (hp : 0 < pInterval) (hse : pStart ≤ pEnd) :
+    let e := (subqueryTimeRange pStart pEnd pInterval off range interval).2 + off
+    (∃ j : Nat, e = pStart + j * pInterval) ∧ e ≤ pEnd ∧ pEnd < e + pInterval := by
+  simp only [subqueryTimeRange, hp, if_true]
+  have hnn : 0 ≤ pEnd - pStart := by omega
+  have hdm := Int.mul_tdiv_add_tmod (pEnd - pStart) pInterval
+  have h1 := Int.tmod_nonneg pInterval hnn
+  have h2 := Int.tmod_lt_of_pos (pEnd - pStart) hp
+  have h3 : 0 ≤ (pEnd - pStart).tdiv pInterval := Int.tdiv_nonneg hnn (by omega)
+  rw [Int.mul_comm] at hdm
+  refine ⟨⟨((pEnd - pStart).tdiv pInterval).toNat, ?_⟩, ?_, ?_⟩
+  · rw [Int.toNat_of_nonneg h3]; omega
+  · omega
+  · omega
+
+example : subquerySteps (-7) (-7) 1 0 10 5 = [-15, -10] := by decide
+example : subquerySteps 1010000 1010000 1 0 10000 3000 = [1002000, 1005000, 1008000] := by decide
 
 end Prom.C28
